@@ -235,11 +235,34 @@ def menger(rc: RuleCtx, rule_range: Optional[str], rule_crit: Optional[str]):
             benv[nme] = ev.symbol(nme + "@list")
     out = ev.eval_loop_body(fi, loop, benv)
     all_apps = [e for e in out.events if e.kind == "append"]
-    if len({e.target for e in all_apps}) != 1 or not isinstance(env.get(all_apps[0].target), Vec):
+    prealloc = None
+    if not all_apps:
+        # a float array of the curve's length preallocated with np.zeros(...) and filled at the loop position: the same vector as
+        # [0] + interior + [0] when the loop visits 1..n-2
+        from ..gvn import Event as _Ev
+        sts = [e for e in out.events if e.kind == "store" and len(e.args) == 2 and isinstance(e.args[0], Rat) and e.args[0].equals(i)]
+        if len({e.target for e in sts}) == 1 and isinstance(env.get(sts[0].target), Rat) and env[sts[0].target].is_zero():
+            nm_ = sts[0].target
+            alloc = [st_ for st_ in pre if isinstance(st_, ast.Assign) and any(isinstance(t_, ast.Name) and t_.id == nm_ for t_ in st_.targets)
+                     and isinstance(st_.value, ast.Call) and ast.unparse(st_.value.func) in ("np.zeros", "numpy.zeros") and st_.value.args and not st_.value.keywords]
+            if len(alloc) == 1:
+                ln_ = fr.expr(alloc[0].value.args[0], env)
+                n_ = sym("n")
+                if isinstance(ln_, Rat) and (ln_.equals(n_) or ln_.equals(anf.f_minmax("max", [n_, C(2)])) or ln_.equals(anf.f_minmax("max", [n_, C(3)]))):
+                    prealloc = nm_
+                    all_apps = [_Ev(e.guard, "append", nm_, (e.args[1],), e.node) for e in sts]
+    if len({e.target for e in all_apps}) != 1 or not (isinstance(env.get(all_apps[0].target), Vec) or prealloc):
         raise AnalysisError("menger.knee: cannot identify the curvature list")
     L = all_apps[0].target
     apps = all_apps
-    head = env[L]
+    head = env[L] if not prealloc else Vec([C(0)], "list")
+    if prealloc:
+        # positions 0 and n-1 are never written and keep the 0 they were allocated with
+        post = [ast.parse(f"{L}.append(0)").body[0]] + list(post)
+        from ..model import keep as _keep
+        _keep(post[0])
+        for sub_ in ast.walk(post[0]):
+            fi.module.node_scope[id(sub_)] = fi.scope
     # after the loop the list is  <what it held before> + <one value per visited i>: a marker stands for the interior block
     MARK = ev.symbol("interior-curvatures", True)
     fr2 = Frame(ev, fi, 0)
